@@ -157,6 +157,20 @@ def c08_block_work_gate(ctx, v):
         if not (isinstance(a[1], S.I) and z3.eq(z3.simplify(a[1].bv), z3.simplify(ts.bv))):
             v.fail("the work requirement is not computed from this block's timestamp")
             continue
+        # the burn fee and the reference time must be the PARENT's (the block found under previous_block_hash)
+        from .models import payload
+        parent = ex.deref_value(payload(ex, as_enum(ex, gets[0][3], "Option"), "Some")) if gets else None
+        if parent is None:
+            v.fail("work requirement computed without a parent block")
+            continue
+        p_bf = ex.step_get(parent, ("f", ctx.field_index("Block", "burnfee"), "u64"))
+        p_ts = ex.step_get(parent, ("f", ctx.field_index("Block", "timestamp"), "u64"))
+        if not (isinstance(a[0], S.I) and z3.eq(z3.simplify(a[0].bv), z3.simplify(p_bf.bv))):
+            v.fail("the routing work requirement is not computed from the parent block's burn fee", dict(argument=str(z3.simplify(a[0].bv))[:80] if isinstance(a[0], S.I) else str(a[0])[:80]))
+            continue
+        if not (isinstance(a[2], S.I) and z3.eq(z3.simplify(a[2].bv), z3.simplify(p_ts.bv))):
+            v.fail("the routing work requirement is not computed from the parent block's timestamp")
+            continue
         n += 1
     v.covers_total += 1
     v.covers_sat += 1 if n else 0
